@@ -126,6 +126,9 @@ class _Parameter:
 
     def __set__(self, instance, value):
         self._checker(value)
+        if isinstance(value, np.ndarray) and value.dtype.kind in "iu":
+            # integer arrays overflow silently in the products of the laws (moduli in Pa: 2.1e11 * 1e11 > 2^63)
+            value = value.astype(float)
         instance.__dict__[self.__name] = value
         if isinstance(instance, Updatable):
             instance.Need_Update()
